@@ -63,11 +63,21 @@ class Ctx:
         v, tix = self.args[i]
         if v[0] == "strlit":
             return ("n", None, v[1])
+        if v[0] == "constdef":
+            cinfo = self.an.f.consts.get(v[1])
+            if cinfo is not None and "slice_len" in cinfo:
+                return ("n", None, cinfo["slice_len"])
         if v[0] == "ref" and isinstance(v[1], str) and v[1].startswith("promoted:") and not v[2]:
             pv = self.an.promoted_value(self.st, v[1][len("promoted:"):])
             if pv is not None:
                 return pv
         pl = self.place_of(i)
+        if pl is not None and pl[1] == ("*",):
+            base = self.st.sym.get((pl[0], ()))
+            if base is not None and base[0] == "constdef":
+                cinfo = self.an.f.consts.get(base[1])
+                if cinfo is not None and "slice_len" in cinfo:
+                    return ("n", None, cinfo["slice_len"])
         if pl is not None:
             return self.an.len_val(self.st, pl, self.pointee_tix(i))
         if v[0] == "ref" and isinstance(v[1], str):
